@@ -253,6 +253,11 @@ func (fr *Frame) checkFrame(ct *Contract, out *State, rr string, env *CEnv) {
 	if ms.all {
 		// `modifies everything preserves T`: the field heaps of T must be left as they were
 		for _, tn := range ct.Preserves {
+			if strings.HasPrefix(tn, "elems(") {
+				// only meaningful on trusted (interface) contracts: a function with a body cannot claim it
+				fr.oblige("frame", "preserves "+tn+" on a function with a body is not checkable", rr, "false", fr.fn.Pos())
+				continue
+			}
 			for _, h := range sortedKeys(c.heapSorts) {
 				if !strings.HasPrefix(h, "F."+sanitize(tn)+".") {
 					continue
